@@ -618,7 +618,7 @@ impl SparqlDatabase {
                     } else if obj.starts_with("http://") || obj.starts_with("https://") {
                         output.push_str(&format!("<{}>", obj));
                     } else {
-                        output.push_str(&format!("\"{}\"", obj));
+                        output.push_str(&format!("\"{}\"", escape_ntriples_literal(obj)));
                     }
                 }
 
@@ -1018,12 +1018,28 @@ impl SparqlDatabase {
 
                     let object_raw = object_tokens.join(" ");
 
+                    // A plain quoted literal is data, not syntax: decode its escapes once
+                    // and keep the value verbatim (no annotation scan, bracket stripping,
+                    // prefix expansion or trimming inside it).
+                    let literal = if object_raw.starts_with('"') {
+                        decode_ntriples_literal(&object_raw)
+                            .map(|(value, rest)| (value, object_raw.len() - rest.len()))
+                    } else {
+                        None
+                    };
+                    let scan_from = literal.as_ref().map_or(0, |(_, end)| *end);
+
                     // Handle annotation syntax {| ... |}
-                    let (object_part, annotations) = if let Some(ann_start) = object_raw.find("{|")
+                    let (object_part, annotations) = if let Some(ann_start) = object_raw[scan_from..]
+                        .find("{|")
+                        .map(|offset| offset + scan_from)
                     {
                         let obj = object_raw[..ann_start].trim().to_string();
 
-                        if let Some(ann_end) = object_raw.find("|}") {
+                        if let Some(ann_end) = object_raw[ann_start..]
+                            .find("|}")
+                            .map(|offset| offset + ann_start)
+                        {
                             let ann_content = object_raw[ann_start + 2..ann_end].trim();
                             let ann_parts: Vec<&str> =
                                 ann_content.splitn(2, char::is_whitespace).collect();
@@ -1051,14 +1067,29 @@ impl SparqlDatabase {
                     } else {
                         this.resolve_query_term(&Self::clean_turtle_term(p_raw), &this.prefixes)
                     };
-                    let object = this
-                        .resolve_query_term(&Self::clean_turtle_term(&object_part), &this.prefixes);
+                    // Literal without language tag / datatype suffix: the decoded value.
+                    let literal_value = literal
+                        .filter(|(_, end)| *end == object_part.len())
+                        .map(|(value, _)| value);
+                    let object = match &literal_value {
+                        Some(value) => value.clone(),
+                        None => this.resolve_query_term(
+                            &Self::clean_turtle_term(&object_part),
+                            &this.prefixes,
+                        ),
+                    };
 
                     // Emit the main triple
-                    if subject.starts_with("<<") || object.starts_with("<<") {
+                    if subject.starts_with("<<")
+                        || (literal_value.is_none() && object.starts_with("<<"))
+                    {
                         let s_id = this.encode_term_star(&subject);
                         let p_id = this.encode_term_star(&predicate);
-                        let o_id = this.encode_term_star(&object);
+                        let o_id = if literal_value.is_some() {
+                            this.dictionary.write().unwrap().encode(&object)
+                        } else {
+                            this.encode_term_star(&object)
+                        };
                         let triple = Triple {
                             subject: s_id,
                             predicate: p_id,
